@@ -5,19 +5,25 @@
 From AV Require Export Model.Diff.
 
 (* what include_object is shown: the object itself (name and type_ are functions of it) *)
-Inductive obj := OTable (t:table) | OColumn (tn:N) (c:col) | OCons (tn:N) (k:cons) | OFk (tn:N) (f:fk).
+Inductive obj := OTable (t:table) | OColumn (tn:N) (c:col) | OCons (tn:N) (k:cons) | OFk (tn:N) (f:fk) | OUUq (tn:N) (u:uuq).
 (* what include_name is shown: (name, type_, parent_names); also used to name an object *)
 Inductive nref := NSchema | NTable (t:N) | NColumn (t c:N) | NUq (t n:N) | NIx (t n:N) | NFk (t n:N)
-                | NFkU (t:N).     (* an unnamed foreign key of table t: name None, type_ foreign_key_constraint, parent table t *)
+                | NFkU (t:N)
+                | NSchemaN (s:N)
+                | NUqU (t:N). (* an ATTACHed database seen as a schema with include_schemas=True; NSchema is the default schema (name None) *)     (* an unnamed foreign key of table t: name None, type_ foreign_key_constraint, parent table t *)
 
 Definition kref (tn:N) (k:cons) : nref := if is_ix k then NIx tn (k_name k) else NUq tn (k_name k).
+(* tables of ATTACHed databases: the table code carries the schema, 100*s + local name (s = 0: the default schema).  Tables of
+   different schemas are simply different tables for the comparison; only the name filters see the schema. *)
+Definition schema_of (t:N) : N := t / 100.
+Definition schema_ref (t:N) : nref := if N.eqb (schema_of t) 0 then NSchema else NSchemaN (schema_of t).
 Definition fkref (tn:N) (f:fk) : nref := if f_named f then NFk tn (f_name f) else NFkU tn.
 (* metadata_fks_by_name / conn_fks_by_name: only named keys are indexed; an unnamed key finds nothing *)
 Definition fk_by_name (f:fk) (fs:list fk) : option fk :=
   if f_named f then kfind f_name (f_name f) (filter f_named fs) else None.
 Definition obj_ref (o:obj) : nref :=
   match o with OTable t => NTable (t_name t) | OColumn tn c => NColumn tn (c_name c) | OCons tn k => kref tn k
-             | OFk tn f => fkref tn f end.
+             | OFk tn f => fkref tn f | OUUq tn _ => NUqU tn end.
 
 (* what the harness reads off the object a filter is handed, to pin that the real object (not a stub) is passed:
    a table: its column names in order, then the number of its indexes and of its foreign keys;
@@ -28,6 +34,7 @@ Definition obj_digest (o:obj) : list N :=
   | OColumn _ c => [ty_fam (c_ty c); (if c_null c then 1 else 0)%N]
   | OCons _ k => k_cols k
   | OFk _ f => f_cols f ++ f_rtable f :: f_rcols f
+  | OUUq _ u => u_cols u
   end.
 (* one filter invocation, as the harness can observe it: include_name(name,type_,parents) or
    include_object(object, name, type_, reflected, compare_to) reduced to (type_+names, reflected, compare_to is not None,
@@ -42,8 +49,13 @@ Section Filters.
   (* reflected names that survive run_name_filters *)
   Definition fcols (tn:N) (cs:list col) : list col := filter (fun c => iname (NColumn tn (c_name c))) cs.
   Definition fcons (tn:N) (ks:list cons) : list cons := filter (fun k => iname (kref tn k)) ks.
+  (* unnamed reflected unique constraints all show the name filter the same thing: (None, "unique_constraint", table) *)
+  Definition fuuqs (tn:N) (us:list uuq) : list uuq := filter (fun _ => iname (NUqU tn)) us.
+  Definition conn_uq_sigs_f (tn:N) (c:table) : list (list N) :=
+    map k_cols (filter is_uq (fcons tn (t_cons c))) ++ map u_cols (fuuqs tn (t_uuqs c)).
   Definition ftables (conn:schema) : schema :=
-    if iname NSchema then filter (fun c => iname (NTable (t_name c))) conn else [].   (* _produce_net_changes / _autogen_for_tables *)
+    (* _produce_net_changes keeps the schemas include_name accepts, _autogen_for_tables the table names it accepts within them *)
+    filter (fun c => iname (schema_ref (t_name c)) && iname (NTable (t_name c))) conn.
 
   (* ------------------------------------------------------------ _compare_columns *)
   Definition compare_columns_pre_f (g:cfg) (tn:N) (conn meta:table) : list op :=
@@ -84,9 +96,11 @@ Section Filters.
     let is_drop_table := match metadata_table with None => true | Some _ => false end in
     let cod := is_create_table || is_drop_table in
     let metadata_cons := match metadata_table with Some m => t_cons m | None => [] end in
+    let unnamed_metadata_uniques := match metadata_table with Some m => t_uuqs m | None => [] end in
     let supports_unique_constraints := negb is_create_table in
     let conn_cons := conn_cons_f tn conn_table metadata_table in
     flat_map (fun ck => if memN (k_name ck) (keys k_name metadata_cons) then []
+                        else if is_uq ck && existsb (fun u => permb (k_cols ck) (u_cols u)) unnamed_metadata_uniques then []
                         else obj_removed_f tn supports_unique_constraints cod ck) conn_cons
     ++ flat_map (fun mk => match kfind k_name (k_name mk) conn_cons with
                            | Some ck => if negb (Bool.eqb (is_ix ck) (is_ix mk))
@@ -96,7 +110,12 @@ Section Filters.
                            | None => []
                            end) metadata_cons
     ++ flat_map (fun mk => if memN (k_name mk) (keys k_name conn_cons) then []
-                           else obj_added_f tn supports_unique_constraints cod mk) metadata_cons.
+                           else obj_added_f tn supports_unique_constraints cod mk) metadata_cons
+    ++ match conn_table, metadata_table with
+       | Some c, Some m => flat_map (fun u => if existsb (permb (u_cols u)) (conn_uq_sigs_f tn c) then []
+                                              else if io (OUUq tn u) false None then [OpAddUUq tn u] else []) (t_uuqs m)
+       | _, _ => []
+       end.
 
   (* ------------------------------------------------------------ _compare_foreign_keys *)
   Definition ffks (tn:N) (fs:list fk) : list fk := filter (fun f => iname (fkref tn f)) fs.
@@ -168,10 +187,17 @@ Section Filters.
     let is_drop_table := match metadata_table with None => true | Some _ => false end in
     let cod := is_create_table || is_drop_table in
     let metadata_cons := match metadata_table with Some m => t_cons m | None => [] end in
+    let unnamed_metadata_uniques := match metadata_table with Some m => t_uuqs m | None => [] end in
     let sup := negb is_create_table in
     let conn_cons := conn_cons_f tn conn_table metadata_table in
-    match conn_table with Some c => map (fun k => TN (kref tn k)) (t_cons c) | None => [] end
-    ++ flat_map (fun ck => if memN (k_name ck) (keys k_name metadata_cons) then [] else calls_removed tn sup cod ck) conn_cons
+    match conn_table with Some c => map (fun k => TN (kref tn k)) (t_cons c) ++ map (fun _ => TN (NUqU tn)) (t_uuqs c) | None => [] end
+    ++ match conn_table, metadata_table with
+       | Some c, Some m => flat_map (fun u => if existsb (permb (u_cols u)) (conn_uq_sigs_f tn c) then [] else [tO (OUUq tn u) false None]) (t_uuqs m)
+       | _, _ => []
+       end
+    ++ flat_map (fun ck => if memN (k_name ck) (keys k_name metadata_cons) then []
+                           else if is_uq ck && existsb (fun u => permb (k_cols ck) (u_cols u)) unnamed_metadata_uniques then []
+                           else calls_removed tn sup cod ck) conn_cons
     ++ flat_map (fun mk => match kfind k_name (k_name mk) conn_cons with
                            | Some ck => if negb (Bool.eqb (is_ix ck) (is_ix mk))
                                         then calls_removed tn sup cod ck ++ calls_added tn sup cod mk
@@ -187,9 +213,11 @@ Section Filters.
     ++ flat_map (fun mf => if existsb (fk_sig_eqb mf) conn_fks then []
                            else [tO (OFk tn mf) false (option_map (OFk tn) (fk_by_name mf conn_fks))]) (t_fks m).
 
-  Definition calls_f (conn0 meta:schema) : list tcall :=
+  (* attached: the schemas inspector.get_schema_names() reports besides the default one *)
+  Definition calls_f (attached:list N) (conn0 meta:schema) : list tcall :=
     let conn := ftables conn0 in
-    TN NSchema :: (if iname NSchema then map (fun c => TN (NTable (t_name c))) conn0 else [])
+    TN NSchema :: map (fun s => TN (NSchemaN s)) attached
+    ++ map (fun c => TN (NTable (t_name c))) (filter (fun c => iname (schema_ref (t_name c))) conn0)
     ++ flat_map (fun m => if memN (t_name m) (keys t_name conn) then []
                           else tO (OTable m) false None ::
                                (if io (OTable m) false None then calls_ciu (t_name m) None (Some m) else [])) meta
